@@ -28,6 +28,26 @@ package cache
 //@ fn isIdx(j int) bool
 //@ smt (assert (forall ((j Int)) (! (isIdx j) :pattern ((isIdx j)))))
 
+// ---- heap order (by expiry) -----------------------------------------------------------------------------
+// heapOrd: no entry expires before its parent (positions 2p+1 and 2p+2 are the children of p: container/heap's
+// invariant "!Less(child, parent)" with the checked contract of Less). rootMin: the root expires first. rootMin follows
+// from heapOrd by induction over the depth of the tree, which SMT cannot do: it is carried along as part of ordInv and
+// is (re-)established by the ASSUMED contracts of heap.Fix / heap.Remove (container/heap: "the minimum element is the
+// root"). heapOrdBut(h, i): heap order as container/heap.Fix(h, i) needs it -- the heap is in order when the entry at
+// position i is ignored (edges not touching i are in order; the parent of i does not expire after i's children).
+// (isPos(p) -- true for every p, like isIdx -- is the only instantiation trigger -- the entries are indexed by p + 0, 2p+1, 2p+2, never by p itself: with
+//  entries[p] as a trigger every instance would name a child's slot and so trigger the next instance, without end.
+//  Written over children, not over (k-1)/2: quantified `div` terms made z3 give up on unrelated obligations.)
+//@ fn isPos(p int) bool
+//@ smt (assert (forall ((p Int)) (! (isPos p) :pattern ((isPos p)))))
+//@ macro ordPC(hh, pp, cc) = cc < len(hh.entries) ==> hh.entries[pp].exp <= hh.entries[cc].exp
+//@ macro heapOrd(hh) = forall(p, 0, len(hh.entries), isPos(p) ==> ordPC(hh, p + 0, p + p + 1) && ordPC(hh, p + 0, p + p + 2))
+//@ macro rootMin(hh) = forall(k, 0, len(hh.entries), isPos(k) ==> hh.entries[0].exp <= hh.entries[k + 0].exp)
+//@ macro ordInv(hh) = heapOrd(hh) && rootMin(hh)
+//@ macro heapOrdBut(hh, ii) = forall(p, 0, len(hh.entries), isPos(p) && p != ii ==> (p + p + 1 != ii ==> ordPC(hh, p + 0, p + p + 1)) && (p + p + 2 != ii ==> ordPC(hh, p + 0, p + p + 2))) &&
+//@ ..   forall(g, 0, len(hh.entries), isPos(g) && (g + g + 1 == ii || g + g + 2 == ii) ==> ordPC(hh, g + 0, ii + ii + 1) && ordPC(hh, g + 0, ii + ii + 2))
+//@ macro swLo(ii, jj) = ite(ii < jj, ii, jj)
+//@ macro swHi(ii, jj) = ite(ii < jj, jj, ii)
 //@ func (indexedHeap).Len
 //@   pure
 //@   ensures result == len(h.entries)
@@ -40,16 +60,27 @@ package cache
 //@ func (indexedHeap).Swap
 //@   requires heap-wf: wfHeap(h)
 //@   requires 0 <= i && i < len(h.entries) && 0 <= j && j < len(h.entries)
+//@   requires sum-inv: sumInv(h)
+//@   requires hint-positions: isPos(i) && isPos(i + 1) && isPos(j) && isPos(j + 1) && isPos(0)
 //@   modifies elems(h.entries), elems(h.indices)
 //@   ensures index-follows-entry: wfHeap(h)
 //@   ensures swapped: entryWas(h.entries[i], h.entries[j]) && entryWas(h.entries[j], h.entries[i])
 //@   ensures others-untouched: forall(k, 0, h.maxidx, k != i && k != j ==> entryWas(h.entries[k], h.entries[k]))
+//   (sum lemma: Swap does not list hpSum/hpPre in its frame, so the total is unchanged; the prefix sums between the two
+//    positions move by the difference of the two entries -- with that witness the invariant holds again. This and the
+//    lemmas of Pop and pushInternal are what the ASSUMED contracts of heap.Fix / heap.Remove say about hpPre / hpSum.)
+//@   ensures swap-keeps-sum: sumInvSh(h, hpPre, swLo(i, j), swHi(i, j), old(h.entries[swHi(i, j)].bytes) - old(h.entries[swLo(i, j)].bytes), hpSum)
 
 // Pop drops the last live entry; the slot keeps its content (it becomes a parked slot).
 //@ func (*indexedHeap).Pop
 //@   requires non-empty: len(h.entries) > 0
+//@   requires sum-inv: sumInv(h)
+//@   requires hint-positions: isPos(len(h.entries) - 1) && isPos(0)
 //@   modifies h.entries
 //@   ensures shrinks-by-one: h.entries == old(h.entries)[:old(len(h.entries)) - 1]
+//   (sum lemma: the witness stays, the total drops by the bytes of the entry that goes)
+//@   ensures pop-takes-last-from-sum: sumInvSh(h, hpPre, 0, 0, 0, old(hpSum) - old(h.entries[len(h.entries)-1].bytes))
+//@   ensures last-is-within-sum: old(h.entries[len(h.entries)-1].bytes) <= old(hpSum) && (len(h.entries) == 0 ==> old(hpSum) == old(h.entries[len(h.entries)-1].bytes))
 //@   ensures returns-last: typeis(result, heapEntry) && unbox(result, heapEntry).key == old(h.entries[len(h.entries)-1].key) && unbox(result, heapEntry).exp == old(h.entries[len(h.entries)-1].exp) && unbox(result, heapEntry).bytes == old(h.entries[len(h.entries)-1].bytes) && unbox(result, heapEntry).idx == old(h.entries[len(h.entries)-1].idx)
 
 // Push (heap.Interface; container/heap.Push is never called on an indexedHeap, put appends by hand).
@@ -57,9 +88,13 @@ package cache
 //@   requires is-entry: typeis(x, heapEntry)
 //@   requires shape: pushShape(h, unbox(x, heapEntry))
 //@   requires other-slots-in-order: pushSlots(h, unbox(x, heapEntry))
-//@   modifies h.entries, elems(h.entries), elems(h.indices)
+//@   requires sum-inv: sumInv(h) && unbox(x, heapEntry).bytes >= 0
+//@   requires hint-positions: isPos(len(h.entries)) && isPos(0)
+//@   modifies h.entries, elems(h.entries), elems(h.indices), hpPre, hpSum
 //@   ensures heap-wf: wfHeap(h)
 //@   ensures grows-by-one: len(h.entries) == old(len(h.entries)) + 1
+//@   ensures sum-inv: sumInv(h)
+//@   ensures sum-follows: hpSum == old(hpSum) + unbox(x, heapEntry).bytes
 
 // pushInternal appends entry at position len. It is called by put in an intermediate state: every slot
 // but the target slot is in order and no other slot carries entry.idx.
@@ -68,7 +103,14 @@ package cache
 //@ func (*indexedHeap).pushInternal
 //@   requires shape: pushShape(h, entry)
 //@   requires other-slots-in-order: pushSlots(h, entry)
-//@   modifies h.entries, elems(h.entries), elems(h.indices)
+//@   requires sum-inv: sumInv(h) && entry.bytes >= 0
+//@   requires hint-positions: isPos(len(h.entries)) && isPos(0)
+//@   modifies h.entries, elems(h.entries), elems(h.indices), hpPre, hpSum
+//   GHOST CODE (the one place where the ghost sum is assigned; `trusted` because a body cannot assign ghost state --
+//   the clause has the form ghost == f(old ghost, arguments), so it constrains no real state):
+//@   trusted ensures ghost-code: hpPre == old(hpPre)[old(len(h.entries)) + 1 := old(hpSum) + entry.bytes] && hpSum == old(hpSum) + entry.bytes
+//   (checked: with exactly that witness and total the invariant holds for the entries the body leaves behind)
+//@   ensures push-adds-to-sum: sumInvSh(h, old(hpPre)[old(len(h.entries)) + 1 := old(hpSum) + entry.bytes], 0, 0, 0, old(hpSum) + entry.bytes)
 //@   ensures heap-wf: wfHeap(h)
 //@   ensures grows-by-one: len(h.entries) == old(len(h.entries)) + 1
 //@   ensures new-entry-last: h.entries[len(h.entries)-1].key == entry.key && h.entries[len(h.entries)-1].exp == entry.exp && h.entries[len(h.entries)-1].bytes == entry.bytes && h.entries[len(h.entries)-1].idx == entry.idx
@@ -76,56 +118,94 @@ package cache
 //@   ensures index-of-new-entry: h.indices[entry.idx] == old(len(h.entries)) && len(h.indices) == old(len(h.indices))
 //@   ensures other-indices-kept: forall(j, 0, h.maxidx, j != entry.idx ==> h.indices[j] == old(h.indices[j]))
 
-// hpSum: ghost running total of the bytes of the live heap entries (SMT has no sum operator; the
-// clauses that maintain it are `trusted`: they are the definition of the sum, not checked against a body).
+// ---- byte accounting: the sum of the bytes of the live entries --------------------------------------
+// SMT has no sum operator. The sum is pinned down by a WITNESS: the ghost map hpPre holds the prefix sums
+// by heap position (hpPre[k] = bytes of entries[0:k)), hpSum is the total. sumInv(h) says exactly that:
+//   hpPre[0] == 0, hpPre[k+1] == hpPre[k] + entries[k].bytes for k < len, hpSum == hpPre[len]
+// (these three determine hpSum uniquely as the sum), plus the consequence "prefix sums grow" (bytes are
+// unsigned), which is carried along because SMT cannot derive it (it needs induction).
+// From sumInv: an empty heap has sum 0, and every entry's bytes are <= hpSum -- both used to be trusted.
+// sumInvSh is sumInv for the witness `pre` shifted by d on the positions (lo, hi] and the total `tot`:
+// the ghost state cannot be assigned in a body (contracts are comment-only), so a function states the
+// invariant for the witness/total it leaves behind as an expression over the old ghost values.
 //@ ghost hpSum int
+//@ ghost hpPre map[int]int
+//@ macro preSh(pre, lo, hi, d, k) = pre[k] + ite(lo < k && k <= hi, d, 0)
+// (isPos(k) -- true for every k, see the heap-order section -- is the only instantiation trigger of the two quantifiers:
+//  the clients of the heap only hand sumInv from one call to the next and must not pay for it; the lemmas of Swap/Pop/
+//  pushInternal name the positions at which they need the invariant as `requires hint-*: isPos(..)`, which is always true.)
+//@ macro sumInvSh(hh, pre, lo, hi, d, tot) = preSh(pre, lo, hi, d, 0) == 0 && 0 <= tot && tot == preSh(pre, lo, hi, d, len(hh.entries)) &&
+//@ ..   forall(k, 0, len(hh.entries), isPos(k) ==> preSh(pre, lo, hi, d, k + 1) == preSh(pre, lo, hi, d, k + 0) + hh.entries[k + 0].bytes) &&
+//@ ..   forall(a, 0, 1 + len(hh.entries), forall(b, a, 1 + len(hh.entries), isPos(a) && isPos(b) ==> preSh(pre, lo, hi, d, a + 0) <= preSh(pre, lo, hi, d, b + 0)))
+//@ macro sumInv(hh) = sumInvSh(hh, hpPre, 0, 0, 0, hpSum)
 
 // put inserts (key, exp, bytes) under an idx that is not in use and returns that idx.
 //@ func (*indexedHeap).put
 //@   requires heap-wf: wfHeap(h)
-//@   modifies h.maxidx, h.indices, h.entries, elems(h.entries), elems(h.indices), hpSum
+//@   requires sum-inv: sumInv(h)
+//@   requires heap-ordered: ordInv(h)
+//@   modifies h.maxidx, h.indices, h.entries, elems(h.entries), elems(h.indices), hpSum, hpPre
+//   (lemmas at the call of heap.Fix, i.e. after the push: the idx chosen was free and is now the one of the last entry)
+//   (at a call of heap.Fix the name h is Fix's own parameter, the interface value: HP(hx) is the *indexedHeap in it)
+//@   atcall @heap.Fix: chosen-idx-was-free: 0 <= idx && !old(live(h, idx)) && HP(hx) == old(h)
+//@   atcall @heap.Fix: chosen-idx-is-last-entry: holds(HP(hx), idx) && HP(hx).indices[idx] == len(HP(hx).entries) - 1 && len(HP(hx).entries) == old(len(h.entries)) + 1
+//@   atcall @heap.Fix: pushed-entry-under-idx: HP(hx).entries[HP(hx).indices[idx]].key == key && HP(hx).entries[HP(hx).indices[idx]].exp == exp && HP(hx).entries[HP(hx).indices[idx]].bytes == bytes
 //@   ensures heap-wf: wfHeap(h)
 //@   ensures grows-by-one: len(h.entries) == old(len(h.entries)) + 1
 //@   ensures returns-unused-idx: !old(live(h, result)) && holds(h, result)
 //@   ensures entry-under-idx: h.entries[h.indices[result]].key == key && h.entries[h.indices[result]].exp == exp && h.entries[h.indices[result]].bytes == bytes
 //@   ensures live-entries-kept: forall(j, 0, old(h.maxidx), isIdx(j) ==> keptIdx(h, j + 0))
 //@   ensures max-idx-grows-at-most-one: old(h.maxidx) <= h.maxidx && h.maxidx <= old(h.maxidx) + 1
-//@   trusted ensures hpSum == old(hpSum) + bytes
+//@   ensures sum-inv: sumInv(h)
+//@   ensures sum-follows: hpSum == old(hpSum) + bytes
+//@   ensures heap-ordered: ordInv(h)
 
 // removeInternal takes the entry at heap position realIdx out; its idx becomes free.
-// The update of the ghost sum is trusted (it is the definition of the sum).
 //@ func (*indexedHeap).removeInternal
 //@   requires heap-wf: wfHeap(h)
 //@   requires position-in-range: 0 <= realIdx && realIdx < len(h.entries)
-//@   modifies h.entries, elems(h.entries), elems(h.indices), hpSum
+//@   requires sum-inv: sumInv(h)
+//@   requires heap-ordered: ordInv(h)
+//@   modifies h.entries, elems(h.entries), elems(h.indices), hpSum, hpPre
 //@   ensures heap-wf: wfHeap(h)
 //@   ensures shrinks-by-one: len(h.entries) == old(len(h.entries)) - 1 && h.maxidx == old(h.maxidx)
 //@   ensures idx-freed: !live(h, old(h.entries[realIdx].idx))
 //@   ensures other-live-entries-kept: forall(j, 0, h.maxidx, isIdx(j) && j != old(h.entries[realIdx].idx) ==> keptIdx(h, j + 0))
 //@   ensures returns-removed-entry: result0 == old(h.entries[realIdx].key) && result1 == old(h.entries[realIdx].bytes)
-//@   trusted ensures hpSum == old(hpSum) - result1 && result1 <= old(hpSum) && (len(h.entries) == 0 ==> hpSum == 0)
+//@   ensures sum-inv: sumInv(h)
+//@   ensures sum-follows: hpSum == old(hpSum) - result1 && result1 <= old(hpSum) && (len(h.entries) == 0 ==> hpSum == 0)
+//@   ensures heap-ordered: ordInv(h)
 
 // remove(idx): idx must be in use; exactly the entry that was handed out under idx goes.
 //@ func (*indexedHeap).remove
 //@   requires heap-wf: wfHeap(h)
 //@   requires idx-in-use: holds(h, idx)
-//@   modifies h.entries, elems(h.entries), elems(h.indices), hpSum
+//@   requires sum-inv: sumInv(h)
+//@   requires heap-ordered: ordInv(h)
+//@   modifies h.entries, elems(h.entries), elems(h.indices), hpSum, hpPre
 //@   ensures heap-wf: wfHeap(h)
 //@   ensures shrinks-by-one: len(h.entries) == old(len(h.entries)) - 1 && h.maxidx == old(h.maxidx)
 //@   ensures removes-that-entry: !live(h, idx) && result0 == old(h.entries[h.indices[idx]].key) && result1 == old(h.entries[h.indices[idx]].bytes)
 //@   ensures other-live-entries-kept: forall(j, 0, h.maxidx, isIdx(j) && j != idx ==> keptIdx(h, j + 0))
+//@   ensures sum-inv: sumInv(h)
 //@   ensures sum-follows: hpSum == old(hpSum) - result1 && result1 <= old(hpSum) && (len(h.entries) == 0 ==> hpSum == 0)
+//@   ensures heap-ordered: ordInv(h)
 
 // removeFirst: the root goes (the entry with the nearest expiry, by the heap order kept by Fix/Remove).
 //@ func (*indexedHeap).removeFirst
 //@   requires heap-wf: wfHeap(h)
 //@   requires non-empty: len(h.entries) > 0
-//@   modifies h.entries, elems(h.entries), elems(h.indices), hpSum
+//@   requires sum-inv: sumInv(h)
+//@   requires heap-ordered: ordInv(h)
+//@   modifies h.entries, elems(h.entries), elems(h.indices), hpSum, hpPre
 //@   ensures heap-wf: wfHeap(h)
 //@   ensures shrinks-by-one: len(h.entries) == old(len(h.entries)) - 1 && h.maxidx == old(h.maxidx)
 //@   ensures removes-root: !live(h, old(h.entries[0].idx)) && result0 == old(h.entries[0].key) && result1 == old(h.entries[0].bytes)
+//@   ensures root-expired-first: forall(k, 0, old(len(h.entries)), isPos(k) ==> old(h.entries[0].exp) <= old(h.entries[k + 0].exp))
 //@   ensures other-live-entries-kept: forall(j, 0, h.maxidx, isIdx(j) && j != old(h.entries[0].idx) ==> keptIdx(h, j + 0))
+//@   ensures sum-inv: sumInv(h)
 //@   ensures sum-follows: hpSum == old(hpSum) - result1 && result1 <= old(hpSum) && (len(h.entries) == 0 ==> hpSum == 0)
+//@   ensures heap-ordered: ordInv(h)
 
 // ---- the cache as the handler sees it (ghost view of the manager's store) --------------------------
 // ceEnt[k]: the entry cached under key k (= KeyGenerator(c) + "_" + method), 0 = none. An entry is an
@@ -137,17 +217,34 @@ package cache
 //   cid of the content type etc.; entCencLen is the length of the encoding (the hit path tests it).
 // External back end: bodies are separate raw values under k+"_body": rawEnt[storage key], 0 = none, rawBody (cid).
 // (One map of entry ids instead of one map per component keeps the SMT queries small.)
+//   An entry id stands for one stored value: entCode(e) is the msgpack encoding of the item (what an external storage
+//   holds), entPtr(e) the *item (what the in-memory back end holds). The observers are DEFINED as what the encoding
+//   decodes to (dec*: uninterpreted, pinned down only by the assumed round trip of MarshalMsg/UnmarshalMsg below), so
+//   "the entry stored under k" and "what get(k) decodes" are the same thing by definition, not by a trusted clause.
 //@ ghost ceEnt map[string]int
-//@ fn entExp(e int) int
-//@ fn entStatus(e int) int
-//@ fn entBody(e int) int
-//@ fn entSize(e int) int
-//@ fn entCtype(e int) int
-//@ fn entCenc(e int) int
-//@ fn entCencLen(e int) int
-//@ fn entHidx(e int) int
-//@ fn entHdrHas(e int, h string) bool
-//@ fn entHdr(e int, h string) int
+//@ fn entCode(e int) string
+//@ fn entPtr(e int) int
+//@ fn decExp(s string) int
+//@ fn decStatus(s string) int
+//@ fn decBody(s string) int
+//@ fn decSize(s string) int
+//@ fn decCtype(s string) int
+//@ fn decCenc(s string) int
+//@ fn decCencLen(s string) int
+//@ fn decHidx(s string) int
+//@ fn decHdrHas(s string, h string) bool
+//@ fn decHdr(s string, h string) int
+//@ fn isItemCode(s string) bool
+//@ fn entExp(e int) int = decExp(entCode(e))
+//@ fn entStatus(e int) int = decStatus(entCode(e))
+//@ fn entBody(e int) int = decBody(entCode(e))
+//@ fn entSize(e int) int = decSize(entCode(e))
+//@ fn entCtype(e int) int = decCtype(entCode(e))
+//@ fn entCenc(e int) int = decCenc(entCode(e))
+//@ fn entCencLen(e int) int = decCencLen(entCode(e))
+//@ fn entHidx(e int) int = decHidx(entCode(e))
+//@ fn entHdrHas(e int, h string) bool = decHdrHas(entCode(e), h)
+//@ fn entHdr(e int, h string) int = decHdr(entCode(e), h)
 //@ smt (assert (= (entExp 0) 0))
 //@ ghost rawEnt map[string]int
 //@ fn rawBody(r int) int
@@ -159,71 +256,150 @@ package cache
 //@ ..   forallS(hk, old(indom(it.headers, hk)) <==> entHdrHas(en, hk)) && forallS(hk, entHdrHas(en, hk) ==> old(cid(str(it.headers[hk]))) == entHdr(en, hk))
 
 // ---- manager (manager.go): glue between the back end and the ghost view ----------------------------
-// The relation to the ghost view is `trusted` (the msgpack round trip and internal/memory are not
-// verified against it); the bodies are checked for safety, for the frame, and for what they hand to
-// the back end (own key, own TTL). An entry may have expired (TTL) when it is read.
-//@ func (*item).UnmarshalMsg(z, bts) assumed
-//@   modifies fields(z)
-//@ func (*item).MarshalMsg(z, b) assumed pure allocates
+// The ghost view (ceEnt, rawEnt) is tied to the back end's own ghost model (stHas/stVal of fiber.Storage, memHas/memVal
+// of internal/memory) by the coupling cpl(m): whatever the back end holds under a key is the entry / raw value the ghost
+// view has for that key (the view may hold more: the back end drops values when their TTL runs out, which shows at the
+// next Get of that key). Entry keys and body keys are told apart by bodyKey (uninterpreted; the handler states as a
+// precondition that its entry keys are no body keys and its body keys are).
+//   cplXat: external storage, key k      cplMat: in-memory back end (entries only: raw values need an external storage)
+//   cplW(m, ce, raw): the coupling for the view (ce, raw); cpl(m) = cplW(m, ceEnt, rawEnt)
+// GHOST CODE. A body cannot assign ghost state, so each function below that changes the view has ONE `trusted ensures
+// ghost-code-*` clause of the form view == f(old view, state after the body); everything else is CHECKED: that the
+// coupling holds for exactly that new view (the new view is spelled out as an expression, or, where it contains a newly
+// chosen entry id, the coupling is proved for all other keys and the facts about the new key are proved separately),
+// and the facts the handler uses (what get returns is the entry of the key, nil/blank when there is none, ...).
+// What is still ASSUMED here: the msgpack round trip (MarshalMsg/UnmarshalMsg below), sync.Pool (acquire), that an
+// *item held by the in-memory back end is not written to while it is held (get: stored-item-unchanged), and -- as a
+// stated precondition -- that the operations of an external storage do not fail (stReliable, fiber_storage.spec).
+//@ fn bodyKey(k string) bool
+//@ macro codes(z, s) = z.exp == decExp(s) && z.status == decStatus(s) && cid(str(z.ctype)) == decCtype(s) && cid(str(z.cencoding)) == decCenc(s) && len(z.cencoding) == decCencLen(s) && z.heapidx == decHidx(s) &&
+//@ ..   cid(str(z.body)) == decBody(s) && len(z.body) == decSize(s) &&
+//@ ..   forallS(hk, indom(z.headers, hk) <==> decHdrHas(s, hk)) && forallS(hk, decHdrHas(s, hk) ==> cid(str(z.headers[hk])) == decHdr(s, hk))
+//@ macro codesWas(z, s) = old(z.exp) == decExp(s) && old(z.status) == decStatus(s) && old(cid(str(z.ctype))) == decCtype(s) && old(cid(str(z.cencoding))) == decCenc(s) && old(len(z.cencoding)) == decCencLen(s) && old(z.heapidx) == decHidx(s) &&
+//@ ..   old(cid(str(z.body))) == decBody(s) && old(len(z.body)) == decSize(s) &&
+//@ ..   forallS(hk, old(indom(z.headers, hk)) <==> decHdrHas(s, hk)) && forallS(hk, decHdrHas(s, hk) ==> old(cid(str(z.headers[hk]))) == decHdr(s, hk))
+//@ macro cplXat(m, ce, raw, k) = stHas[m.storage][k] ==> (ce[k] != 0 && !bodyKey(k) && isItemCode(stVal[m.storage][k]) && entCode(ce[k]) == stVal[m.storage][k]) || (raw[k] != 0 && bodyKey(k) && rawBody(raw[k]) == cid(stVal[m.storage][k]))
+//@ macro cplMat(m, ce, k) = memHas[m.memory][k] ==> ce[k] != 0 && typeis(memVal[m.memory][k], *item) && unbox(memVal[m.memory][k], *item) == entPtr(ce[k]) && entPtr(ce[k]) != 0
+//@ macro cplW(m, ce, raw) = (m.storage != nil ==> forallS(k, cplXat(m, ce, raw, k))) && (m.storage == nil ==> m.memory != nil && forallS(k, cplMat(m, ce, k)))
+//@ macro cpl(m) = cplW(m, ceEnt, rawEnt)
+//@ macro backHas(m, k) = ite(m.storage != nil, stHas[m.storage][k], memHas[m.memory][k])
+//@ macro reliable(m) = m.storage != nil ==> stReliable(m.storage)
 
-// sync.Pool is not modelled: the pool only ever holds *item (New returns new(item), Put is only called by release).
+// ASSUMED msgpack round trip: MarshalMsg does not fail and yields an encoding s that decodes (dec*) to the fields of the
+// item; UnmarshalMsg of such an encoding does not fail and fills the item with what it decodes to.
+//@ func (*item).UnmarshalMsg(z, bts) assumed
+//@   requires no-map-to-recycle: z.headers == nil
+//@   modifies fields(z)
+//@   ensures round-trip: isItemCode(old(str(bts))) ==> result1 == nil && codes(z, old(str(bts)))
+//@ func (*item).MarshalMsg(z, b) assumed pure allocates
+//@   ensures round-trip: result1 == nil && isItemCode(str(result0)) && codes(z, str(result0))
+
+// sync.Pool (ASSUMED, as for the other pools of the library): Get returns New() or an object that was Put and not
+// touched since. Hence acquire returns what is proved at the one Put (release: pool-invariant) and of New
+// (newManager$1: pool-new): a blank item.
+//@ macro blankItem(e) = e.exp == 0 && e.status == 0 && e.body == nil && e.ctype == nil && e.headers == nil
 //@ func (*manager).acquire assumed pure
-//@   ensures result != nil
+//@   ensures pooled-item-is-blank: result != nil && blankItem(result)
+//@ func newManager$1
+//@   ensures pool-new: typeis(result, *item) && unbox(result, *item) != nil && blankItem(unbox(result, *item))
 
 //@ func newManager
 //@   ensures result != nil && result.storage == storage
 
 //@ func (*manager).release
 //@   modifies e.body, e.ctype, e.status, e.exp, e.headers
+//@   atcall @sync.(*Pool).Put: pool-invariant: typeis(x, *item) && unbox(x, *item) == e && blankItem(e)
 //@   ensures external-back-end-keeps-item: old(m.storage) != nil ==> e.body == old(e.body) && e.status == old(e.status) && e.exp == old(e.exp) && e.ctype == old(e.ctype) && e.headers == old(e.headers)
 //@   ensures pooled-item-is-blank: old(m.storage) == nil ==> e.body == nil && e.ctype == nil && e.status == 0 && e.exp == 0 && e.headers == nil
 
+// (in the atcall clauses `old(key)` is this function's parameter: a bare `key` at a call of Storage.Get(recv, key) names the
+//  callee's own formal, i.e. arg1, and `arg1 == key` would say nothing)
+// get(key): the item of the entry the back end holds under key; nil (in-memory) or a blank item (external) when it holds
+// none -- then the view forgets the entry.
 //@ func (*manager).get
+//@   requires coupled: cpl(m)
+//@   requires entry-key: !bodyKey(key)
+//@   requires reliable-storage: reliable(m)
 //@   modifies ceEnt, stHas, memHas, item.headers, item.body, item.ctype, item.cencoding, item.status, item.exp, item.heapidx
-//@   atcall @fiber.Storage.Get: own-key: arg1 == key
-//@   atcall @memory.(*Storage).Get: own-key: arg1 == key
+//@   atcall @fiber.Storage.Get: own-key: arg1 == old(key)
+//@   atcall @memory.(*Storage).Get: own-key: arg1 == old(key)
 //@   ensures external-back-end-always-returns-item: m.storage != nil ==> result != nil
-//@   trusted ensures only-expiry: ceEnt == old(ceEnt) || ceEnt == old(ceEnt)[key := 0]
-//@   trusted ensures absent: result == nil ==> ceEnt[key] == 0
-//@   trusted ensures blank-item-when-absent: result != nil && ceEnt[key] == 0 ==> result.exp == 0
-//@   trusted ensures item-is-entry: result != nil && ceEnt[key] != 0 ==> itemIs(result, ceEnt[key]) && (m.storage == nil ==> cid(str(result.body)) == entBody(ceEnt[key]) && len(result.body) == entSize(ceEnt[key]))
+//@   trusted ensures ghost-code-forget-on-miss: ceEnt == ite(backHas(m, key), old(ceEnt), old(ceEnt)[key := 0])
+//@   ensures still-coupled: cplW(m, ite(backHas(m, key), old(ceEnt), old(ceEnt)[key := 0]), rawEnt)
+//@   ensures found-is-known: backHas(m, key) ==> old(ceEnt)[key] != 0
+//@   ensures absent: result == nil ==> !backHas(m, key)
+//@   ensures blank-item-when-absent: result != nil && !backHas(m, key) ==> result.exp == 0
+//@   ensures item-is-entry: m.storage != nil && backHas(m, key) ==> itemIs(result, old(ceEnt)[key])
+//@   ensures item-is-stored-pointer: m.storage == nil && backHas(m, key) ==> result != nil && result == entPtr(old(ceEnt)[key])
+//   ASSUMED (in-memory back end): the item the back end holds is as it was when it was stored
+//@   trusted ensures stored-item-unchanged: m.storage == nil && result != nil ==> itemIs(result, ceEnt[key]) && cid(str(result.body)) == entBody(ceEnt[key]) && len(result.body) == entSize(ceEnt[key])
 
+// getRaw / setRaw: the separately stored body; only used (and only specified) with an external storage.
 //@ func (*manager).getRaw
+//@   requires external-only: m.storage != nil
+//@   requires coupled: cpl(m)
+//@   requires body-key: bodyKey(key)
+//@   requires reliable-storage: reliable(m)
 //@   modifies rawEnt, stHas, memHas
-//@   atcall @fiber.Storage.Get: own-key: arg1 == key
-//@   atcall @memory.(*Storage).Get: own-key: arg1 == key
-//@   trusted ensures only-expiry: rawEnt == old(rawEnt) || rawEnt == old(rawEnt)[key := 0]
-//@   trusted ensures raw-value: (rawEnt[key] != 0 ==> cid(str(result)) == rawBody(rawEnt[key])) && (rawEnt[key] == 0 ==> result == nil)
+//@   atcall @fiber.Storage.Get: own-key: arg1 == old(key)
+//@   atcall @memory.(*Storage).Get: own-key: arg1 == old(key)
+//@   trusted ensures ghost-code-forget-on-miss: rawEnt == ite(stHas[m.storage][key], old(rawEnt), old(rawEnt)[key := 0])
+//@   ensures still-coupled: cplW(m, ceEnt, ite(stHas[m.storage][key], old(rawEnt), old(rawEnt)[key := 0]))
+//@   ensures raw-value: (stHas[m.storage][key] ==> old(rawEnt)[key] != 0 && result != nil && cid(str(result)) == rawBody(old(rawEnt)[key])) && (!stHas[m.storage][key] ==> result == nil)
 
+// set(key, it): the back end holds it (external: its encoding) under key; the view gets a new entry id for it.
 //@ func (*manager).set
-//@   modifies ceEnt, stHas, stVal, memHas, item.body, item.ctype, item.status, item.exp, item.headers
-//@   atcall @fiber.Storage.Set: own-key-and-ttl: arg1 == key && arg3 == exp
-//@   atcall @memory.(*Storage).Set: own-key-and-ttl: arg1 == key && arg3 == exp
-//@   trusted ensures entry-stored: ceEnt == old(ceEnt)[key := ceEnt[key]] && ceEnt[key] != 0 && itemWas(it, ceEnt[key])
+//@   requires coupled: cpl(m)
+//@   requires entry-key: !bodyKey(key)
+//@   requires reliable-storage: reliable(m)
+//@   requires has-item: it != nil
+//@   modifies ceEnt, stHas, stVal, memHas, memVal, item.body, item.ctype, item.status, item.exp, item.headers
+//@   atcall @fiber.Storage.Set: own-key-and-ttl: arg1 == old(key) && arg3 == old(exp)
+//@   atcall @memory.(*Storage).Set: own-key-and-ttl: arg1 == old(key) && arg3 == old(exp)
+//@   trusted ensures ghost-code-new-entry: ceEnt == old(ceEnt)[key := ceEnt[key]] && ceEnt[key] != 0 && (m.storage != nil ==> entCode(ceEnt[key]) == stVal[m.storage][key]) && (m.storage == nil ==> entPtr(ceEnt[key]) == it && itemWas(it, ceEnt[key]))
+//@   ensures others-still-coupled: (m.storage != nil ==> forallS(k, k != key ==> cplXat(m, old(ceEnt), rawEnt, k))) && (m.storage == nil ==> m.memory != nil && forallS(k, k != key ==> cplMat(m, old(ceEnt), k)))
+//@   ensures stored-external: m.storage != nil ==> stHas[m.storage][key] && isItemCode(stVal[m.storage][key]) && codesWas(it, stVal[m.storage][key])
+//@   ensures stored-in-memory: m.storage == nil ==> memHas[m.memory][key] && typeis(memVal[m.memory][key], *item) && unbox(memVal[m.memory][key], *item) == it
 
 //@ func (*manager).setRaw
-//@   modifies rawEnt, stHas, stVal, memHas
-//@   atcall @fiber.Storage.Set: own-key-and-ttl: arg1 == key && arg3 == exp && arg2 == raw
-//@   atcall @memory.(*Storage).Set: own-key-and-ttl: arg1 == key && arg3 == exp
-//@   trusted ensures raw-stored: rawEnt == old(rawEnt)[key := rawEnt[key]] && rawEnt[key] != 0 && rawBody(rawEnt[key]) == old(cid(str(raw)))
+//@   requires external-only: m.storage != nil
+//@   requires coupled: cpl(m)
+//@   requires body-key: bodyKey(key)
+//@   requires reliable-storage: reliable(m)
+//@   modifies rawEnt, stHas, stVal, memHas, memVal
+//@   atcall @fiber.Storage.Set: own-key-and-ttl: arg1 == old(key) && arg3 == old(exp) && arg2 == old(raw)
+//@   atcall @memory.(*Storage).Set: own-key-and-ttl: arg1 == old(key) && arg3 == old(exp)
+//@   trusted ensures ghost-code-new-raw: rawEnt == old(rawEnt)[key := rawEnt[key]] && rawEnt[key] != 0 && rawBody(rawEnt[key]) == cid(stVal[m.storage][key])
+//@   ensures others-still-coupled: forallS(k, k != key ==> cplXat(m, ceEnt, old(rawEnt), k))
+//@   ensures raw-stored: stHas[m.storage][key] && stVal[m.storage][key] == old(str(raw))
 
 //@ func (*manager).del
+//@   requires coupled: cpl(m)
+//@   requires reliable-storage: reliable(m)
 //@   modifies ceEnt, rawEnt, stHas, memHas
-//@   atcall @fiber.Storage.Delete: own-key: arg1 == key
-//@   atcall @memory.(*Storage).Delete: own-key: arg1 == key
-//@   trusted ensures deleted: ceEnt == old(ceEnt)[key := 0] && rawEnt == old(rawEnt)[key := 0]
+//@   atcall @fiber.Storage.Delete: own-key: arg1 == old(key)
+//@   atcall @memory.(*Storage).Delete: own-key: arg1 == old(key)
+//@   trusted ensures ghost-code-forget: ceEnt == old(ceEnt)[key := 0] && rawEnt == old(rawEnt)[key := 0]
+//@   ensures still-coupled: cplW(m, old(ceEnt)[key := 0], old(rawEnt)[key := 0])
+//@   ensures gone-from-back-end: !backHas(m, key)
 
 // deleteKey (New$3): entry and, for an external back end, its body go; nothing else does.
 //@ func New$3
-//@   requires manager-wired: manager != nil
+//@   requires manager-wired: manager != nil && manager.storage == cfg.Storage
+//@   requires coupled: cpl(manager)
+//@   requires reliable-storage: reliable(manager)
 //@   modifies ceEnt, rawEnt, stHas, memHas
+//@   ensures still-coupled: cpl(manager)
 //@   ensures entry-gone: ceEnt[dkey] == 0
 //@   ensures body-gone: cfg.Storage != nil ==> rawEnt[dkey + "_body"] == 0
 //@   ensures only-removes: forallS(k, ceEnt[k] == old(ceEnt[k]) || ceEnt[k] == 0) && forallS(k, rawEnt[k] == old(rawEnt[k]) || rawEnt[k] == 0)
 // The handler calls New$3 through the variable deleteKey; the engine resolves such a call by the name
 // of the variable, so the clauses proved for New$3 are repeated here (ASSUMED copy).
 //@ func var deleteKey(dkey) assumed
+//@   requires coupled: cpl(manager)
+//@   requires reliable-storage: reliable(manager)
 //@   modifies ceEnt, rawEnt, stHas, memHas
+//@   ensures still-coupled: cpl(manager)
 //@   ensures entry-gone: ceEnt[dkey] == 0
 //@   ensures body-gone: cfg.Storage != nil ==> rawEnt[dkey + "_body"] == 0
 //@   ensures only-removes: forallS(k, ceEnt[k] == old(ceEnt[k]) || ceEnt[k] == 0) && forallS(k, rawEnt[k] == old(rawEnt[k]) || rawEnt[k] == 0)
@@ -281,15 +457,27 @@ package cache
 //@   requires wired: manager != nil && manager.storage == cfg.Storage && heap != nil && mux != nil
 //@   requires clock-started: timestamp > 0
 //@   requires limit-is-sane: cfg.MaxBytes < 4611686018427387904
+//   (domain of the proof: an external storage whose operations do not fail; entry keys "<generated key>_<method>" are
+//    no body keys and "<entry key>_body" is one -- false only for a configured method named "body" or ending in "_body")
+//@   requires reliable-storage: cfg.Storage != nil ==> stReliable(cfg.Storage)
+//@   requires key-spaces-apart: forallS(g, !bodyKey(g + "_" + reqMethod(c, epoch)) && bodyKey(g + "_" + reqMethod(c, epoch) + "_body"))
 //
 //   -- accounting and data-structure invariants of the state guarded by mux
-//@   lock mux protects ceEnt, rawEnt, hpSum, C_uint, H_cache_indexedHeap_entries, H_cache_indexedHeap_indices, H_cache_indexedHeap_maxidx, H_cache_heapEntry_key, H_cache_heapEntry_exp, H_cache_heapEntry_bytes, H_cache_heapEntry_idx, E_int inv heap-wf: wfHeap(heap)
+//@   lock mux protects ceEnt, rawEnt, stHas, stVal, memHas, memVal, hpSum, hpPre, C_uint, H_cache_indexedHeap_entries, H_cache_indexedHeap_indices, H_cache_indexedHeap_maxidx, H_cache_heapEntry_key, H_cache_heapEntry_exp, H_cache_heapEntry_bytes, H_cache_heapEntry_idx, E_int inv heap-wf: wfHeap(heap)
+//   (hpSum IS the sum of the bytes of the live heap entries: sumInv, see the heap section; "hpSum >= 0" and "empty heap has
+//    sum 0" below are consequences of it, spelled out because the eviction loop uses them)
+//@   lock mux protects lkNone inv heap-sum-is-sum-of-entry-bytes: sumInv(heap)
+//@   lock mux protects lkNone inv heap-ordered-by-expiry: ordInv(heap)
 //@   lock mux protects lkNone inv stored-bytes-is-heap-sum: storedBytes == hpSum && hpSum >= 0 && (len(heap.entries) == 0 ==> hpSum == 0)
 //@   lock mux protects lkNone inv stored-bytes-within-limit: cfg.MaxBytes > 0 ==> storedBytes <= cfg.MaxBytes
 //@   lock mux protects lkNone inv every-entry-tracked-by-heap: cfg.MaxBytes > 0 ==> tracked()
+//   (the view ceEnt/rawEnt is what the back end holds: cpl, see the manager section)
+//@   lock mux protects lkNone inv view-is-back-end-content: cpl(manager)
 //   (the configuration does not change after New; stated here because &cfg is handed to ExpirationGenerator,
 //    so the engine forgets cfg.* whenever unknown code runs)
 //@   lock mux protects lkNone inv config-is-fixed: cfg.MaxBytes < 4611686018427387904
+//   (likewise the wiring made by New: the manager uses the configured storage, which is one that does not fail)
+//@   lock mux protects lkNone inv wiring-is-fixed: manager != nil && manager.storage == cfg.Storage && (cfg.Storage != nil ==> stReliable(cfg.Storage))
 //
 //   -- bypass
 //@   ensures no-store-bypasses-cache: noStore(c) ==> nextCalls == 1 && cacheUntouched()
@@ -354,12 +542,17 @@ package cache
 //@   atcall var deleteKey: delete-under-lock: held(mux)
 //@   atcall (*indexedHeap).put: heap-under-lock: held(mux)
 //@   atcall (*indexedHeap).removeFirst: heap-under-lock: held(mux)
+//   (eviction order: the entry that goes is one with the nearest expiry of all entries the heap holds)
+//@   atcall (*indexedHeap).removeFirst: evicts-nearest-expiry: forall(k, 0, len(heap.entries), isPos(k) ==> heap.entries[0].exp <= heap.entries[k + 0].exp)
 //@   atcall @fiber.Ctx.Next: origin-outside-lock: !held(mux)
 //@   loop 2
 //@     invariant evicting-under-lock: held(mux) && cfg.MaxBytes > 0 && bodySize <= cfg.MaxBytes && called(@fiber.Ctx.Next) && !served()
 //@     invariant heap-wf: wfHeap(heap)
+//@     invariant heap-sum-is-sum-of-entry-bytes: sumInv(heap)
+//@     invariant heap-ordered-by-expiry: ordInv(heap)
 //@     invariant stored-bytes-is-heap-sum: storedBytes == hpSum && hpSum >= 0 && (len(heap.entries) == 0 ==> hpSum == 0) && storedBytes <= cfg.MaxBytes
 //@     invariant every-entry-tracked-by-heap: tracked()
+//@     invariant view-is-back-end-content: cpl(manager) && manager != nil && manager.storage == cfg.Storage && (cfg.Storage != nil ==> stReliable(cfg.Storage))
 //@     decreases len(heap.entries)
 
 // ---- New: cache switched off -----------------------------------------------------------------------
